@@ -308,6 +308,15 @@ def plan_jobs(mods: list[str], thorough: bool, seed_pass: bool) -> list[tuple]:
                 ks, fks = [9, 99, 950, 4000, 9500], set()
             else:
                 ks, fks = list(K_QUICK), set(FUNC_LEVELS_QUICK)
+                # the module's own block of new names straddling the digit boundaries 999|1000 and
+                # 9999|10000 at every split position (string order flips there)
+                j = max(info["created"].get("SYM", 0), 1)
+                for t in range(1, min(j, 12) + 1):
+                    ks.append(1000 - (_BASE["SYM"] + 1) - t)
+                    fks.add(1000 - (_BASE["SYM"] + 1) - t)
+                for t in range(1, min(j, 4) + 1):
+                    ks.append(10000 - (_BASE["SYM"] + 1) - t)
+                ks = sorted(set(k for k in ks if k >= 0))
             if mode == "all" and not seed_pass and 0 in ks:
                 ks = [k for k in ks if k != 0]  # offset 0 / mode all is the baseline itself
             shards[i % nshards].append((m, ks, fks))
